@@ -56,7 +56,8 @@ PROBES = ['crash-runs', 'kill-before-mkstemp', 'kill-before-write',
           'kill-after-write', 'kill-before-rename', 'kill-after-rename',
           'kill-before-unlink', 'kill-after-unlink', 'acked-unsettled-at-kill',
           'repeated-delivery-after-crash', 'orphan-files-at-restart',
-          'kill-inside-enqueue', 'kill-inside-bookkeeping']
+          'kill-inside-enqueue', 'kill-inside-bookkeeping',
+          'listing-overlaps-writes']
 STATES_MEASURE = 'distinct (effect kind at kill, before/after, number of acked unsettled messages, files present by kind) tuples'
 BIAS = {'backends': ['disk'], 'L': [1, 2, 2], 'waits': (0, 1, 1, 5),
         'max_msgs': 3, 'max_rcpts': 3, 'p_map': 0.5,
@@ -95,6 +96,11 @@ def generate(seed, tier='quick'):
         if rng.random() < 0.5:
             m['body'] = (bytes(rng.randrange(32, 127) for _ in
                                range(rng.randint(40, 400))) + b'\r\n').hex()
+    # the queue's scheduler (and with it the start-up listing) may come up
+    # a moment after the first messages are handed over, so that the listing
+    # runs while a write is between its two files
+    scn['start_delay'] = rng.choice([0.0, 0.0, 0.0005, 0.001, 0.002, 0.004,
+                                     0.008])
     qc.finish(scn)
     n, log = _dry(scn)
     scn['n_effects'] = n
@@ -107,7 +113,11 @@ def generate(seed, tier='quick'):
 
 def _drive(world, scn, sysm, obs):
     q = sysm['queue']
-    q.start()
+    if scn.get('start_delay'):
+        world.probe('listing-overlaps-writes')
+        gevent.spawn_later(scn['start_delay'], q.start)
+    else:
+        q.start()
 
     def do_enqueue(m):
         env = hq.make_envelope(m)
